@@ -12,4 +12,7 @@ fi
 if [ -f replay/Cargo.toml ]; then
   (cd replay && cp -f /repo/Cargo.lock Cargo.lock 2>/dev/null; CARGO_NET_OFFLINE=true timeout 1200 cargo build --offline --release >/dev/null 2>&1 || true)
 fi
+if [ -f replayp/Cargo.toml ]; then
+  (cd replayp && cp -f /repo/Cargo.lock Cargo.lock 2>/dev/null; CARGO_NET_OFFLINE=true timeout 1800 cargo build --offline --release >/dev/null 2>&1 || true)
+fi
 echo setup-ok
